@@ -11,6 +11,7 @@
 -/
 import Kitoken.Proofs.ConvertLemmas
 import Kitoken.Theorems.C15b
+import Kitoken.Theorems.C15c
 namespace Kitoken.C15
 
 open Kitoken Kitoken.Spec Kitoken.Convert
